@@ -115,7 +115,12 @@ CLAIMED.update({
                  'them, alphanumeric names — reading returns exactly the graph the stack-machine denotation gives (numbering, '
                  'names, default annotation values, orders): C04_read_tree (tokeniser lemma + per-node decoding lemma with k '
                  'closing parentheses + state-machine simulation); C04_read_chain is the parenthesis-free instance. Ring bonds, '
-                 '%nn markers and annotations inside nodes: ring parity law, documented examples by kernel evaluation; their '
+                 'string level (C04_read_ring): every chain { node marks (bond? node marks)* } with single-digit and %dd ring '
+                 'markers, each optionally preceded by a bond symbol — any length, any number of rings, nested or interleaved — '
+                 'reads to exactly its denotation: the chain plus one ring bond per closed marker with the order written in '
+                 'front of the opening marker, SyntaxError when a ring bond duplicates a bond or a marker stays open (ring scan '
+                 'lemma scan_marks over the marker text incl. the %nn state machine, stepNode_ring, fold_rtail). Rings inside '
+                 'branches and annotations inside nodes: ring parity law, documented examples by kernel evaluation; their '
                  'unbounded statement is validated by correspondence of the faithful model with the code on grammar ASTs plus an '
                  'independent denotation oracle (partial).'),
         'note': READ_NOTE,
@@ -198,7 +203,10 @@ CLAIMED.update({
                  'argument -> SyntaxError; non-numeric reserved value -> TypeError; any exception of the loop body is what '
                  'read_cgsmiles raises; a ring marker open at the end -> SyntaxError, with the parity law of the ring '
                  'bookkeeping; duplicate ring edge -> SyntaxError; non-virtual node without fragment -> SyntaxError at any '
-                 'position. Tied to the code by fault injection at every position with error-class correspondence.'),
+                 'position. String level (C20_unclosed_ring_string): in every ring-chain string of any size in which some marker '
+                 'occurs an odd number of times the reader raises SyntaxError; every string of that grammar gives a graph or '
+                 'SyntaxError, nothing else (C20_ring_string_total). Tied to the code by fault injection at every position with '
+                 'error-class correspondence.'),
         'note': READ_NOTE,
         'design': '§7 C20',
     },
